@@ -118,6 +118,7 @@ class SteadyLift:
         from irispie.equators import plain as pl
         self.sd, self.ev, self.eq, self.st, self.va, self.pl = sd, ev, eq, st, va, pl
         self.blocks = []
+        self.capture_jacobian = False
         self.array_hook = None     # optional: called with the evaluator after its arrays became object arrays (C20: value-tagged parameters)
 
     def __enter__(self):
@@ -136,12 +137,28 @@ class SteadyLift:
                 g[i] = S.sym(f"g{b}_{i}", float(init_guess[i]) if not isinstance(init_guess[i], S.SReal) else init_guess[i].v)
             f = e.eval_func(g)
             tol = solver_settings["func_tolerance"]
-            outer.blocks.append(dict(g=g, f=list(np.asarray(f, dtype=object).flat), tol=tol, qids=list(e.wrt_qids)))
+            blk = dict(g=g, f=list(np.asarray(f, dtype=object).flat), tol=tol, qids=list(e.wrt_qids))
+            if outer.capture_jacobian:
+                # the Jacobian the solver would be given, at the same symbolic point (C02: steady-state Jacobian conjunct)
+                try:
+                    blk["J"] = np.asarray(e.eval_jacob(g), dtype=object)
+                except S.SymbolicBranchError:
+                    raise
+                except Exception as exc:
+                    blk["J_error"] = f"{type(exc).__name__}: {str(exc)[:200]}"
+            outer.blocks.append(blk)
             import neqs
             return g, True, neqs.ExitStatus.SUCCESS
         self.proxy = npproxy.Proxy()
         extra = [(self.sd, "neqs_levenberg", stub)]
-        self._ctx = npproxy.installed(self.proxy, self.ev, self.eq, self.va, self.pl, self.st, extra=extra)
+        mods = [self.ev, self.eq, self.va, self.pl, self.st]
+        if self.capture_jacobian:
+            from irispie.steadiers import _jacobian as sj
+            from irispie.jacobians import base as jb
+            from irispie.aldi import differentiators as ad
+            mods += [sj, jb, ad]
+            extra.append(npproxy.adaptations_patch(self.proxy))
+        self._ctx = npproxy.installed(self.proxy, *mods, extra=extra)
         self._ctx.__enter__()
         return self
 
